@@ -79,7 +79,8 @@ def run(prog, tier) -> Result:
         cr.run(rule, fi, label, setup, judge, **kw)
 
     # K9: term resolution helpers
-    af = prog.function("quantity", "_amnt_and_unit_from_term")
+    from ..anchors import term_resolver
+    af = term_resolver(prog)
 
     def term_setup(dims_kind):
         def setup(c):
